@@ -87,7 +87,7 @@ def run(ctx, chk):
         if b:
             paths, _ = an.analyse(cfg, b)
             r = [p for p in paths if p.end == "return"]
-            ok = len(r) == 1 and not r[0].guards and an.is_call(r[0].ret, "<S as std::convert::Into<usize>>::into", (F(P(1), "bs"),))
+            ok = len(r) == 1 and not r[0].guards and an.is_call(r[0].ret, "CONV<S -> usize>", (F(P(1), "bs"),))
             chk.ob("S-kmer-int", "usize::from(&Kmer)", ok, "must be storage.into(): " + (show(r[0].ret) if r else "?"), b["span"])
         # ---- G09 from_raw, into_raw ----
         b = an.one(chk, "G09", bio, "Seq::from_raw", name="from_raw", self_re=r"^seq::Seq<A>$", inherent=True)
